@@ -19,6 +19,8 @@ structure DrvState where
   proc : Option MProc := none
   opn : Option MOpen := none
   pool : Option MPool := none
+  hxV : Option MNode := none
+  hxW : Option MNode := none
 
 def sessLine (st : DrvState) (toks : List String) : DrvState × String :=
   match toks with
@@ -100,6 +102,22 @@ def e2eLine (toks : List String) : String :=
   | ["reuse", n] => match n.toNat? with | some n => reuseOp n | none => "bad-op"
   | _ => "skip"
 
+/-- two independent nodes `v` (victim) and `w` (sibling) driven with the `sess` ops -/
+def hxLine (st : DrvState) (toks : List String) : DrvState × String :=
+  match toks with
+  | which :: "reset" :: rest =>
+    match nodeReset rest with
+    | some (n, o) => (if which == "v" then { st with hxV := some n } else { st with hxW := some n }, o)
+    | none => (if which == "v" then { st with hxV := none } else { st with hxW := none }, "reject")
+  | which :: rest =>
+    match (if which == "v" then st.hxV else st.hxW) with
+    | none => (st, "nonode")
+    | some n =>
+      match nodeOp n rest with
+      | some (n', o) => (if which == "v" then { st with hxV := some n' } else { st with hxW := some n' }, o)
+      | none => (st, "bad-op")
+  | _ => (st, "bad-op")
+
 def dispatch (st : DrvState) (line : String) : DrvState × String :=
   match tokens line with
   | "frame" :: rest => (st, frameOp rest)
@@ -110,6 +128,7 @@ def dispatch (st : DrvState) (line : String) : DrvState × String :=
   | "pool" :: rest => poolLine st rest
   | "hb" :: rest => (st, hbOp rest)
   | "socks" :: rest => (st, socksOp rest)
+  | "hx" :: rest => hxLine st rest
   | "e2e" :: rest => (st, e2eLine rest)
   | "dest" :: rest => (st, destOp rest)
   | "dns" :: rest => let (c, o) := dnsOp st.dns rest; ({ st with dns := c }, o)
